@@ -96,6 +96,11 @@ func ParseHeader(b []byte) (*IKEHeader, error) {
 			totalLen, IKE_HEADER_LEN)
 	}
 
+	if uint64(totalLen) != uint64(len(b)) {
+		return nil, errors.Errorf("ParseHeader(): IKE message length %d not matches the received length %d",
+			totalLen, len(b))
+	}
+
 	h := &IKEHeader{
 		InitiatorSPI: binary.BigEndian.Uint64(b[:8]),
 		ResponderSPI: binary.BigEndian.Uint64(b[8:16]),
